@@ -172,6 +172,35 @@ def gen_C07(w, tier):
         for _ in range(150 if not big else 3000):
             d = r.randrange(depth + 1, depth + 5)
             add(toy, side, tuple(r.choice(HOPS) for _ in range(d)), "sampled-toy")
+    # a first start() that fails inside the entropy function still uses the instance up
+    for ps in (toy, w.ps["ed"], w.ps["1024"]):
+        for side in "ABS":
+            for ent in (b"", b"\x01", w.entropy_for(ps, 3)[:-1]):
+                for tail in (("start",), ("ser",), ("start", "start"), ("ser", "start"), ("fin", "start")):
+                    sc = w.scenario("C07/%s/%s/failing-start/%s" % (ps.name, side, "-".join(tail)), ("failing-first-start", "side:" + side))
+                    s_ = sc.new(side, ps, b"pw", b"", b"", ent)
+                    first = sc.start(s_)
+                    outs = []
+                    for op in tail:
+                        if op == "start":
+                            outs.append(("start", sc.start(s_)))
+                        elif op == "ser":
+                            outs.append(("ser", sc.do("ser %d" % s_)))
+                        else:
+                            outs.append(("fin", sc.finish(s_, peer_message(w, ps, side))))
+                    sc.meta.update(first=first, outs=outs)
+
+                    def pred_fs(io, sc):
+                        if sc.meta["first"].startswith("ok"):
+                            return "start() succeeded without enough entropy"
+                        for (op, o) in sc.meta["outs"]:
+                            if op == "start" and o != "raise:OnlyCallStartOnce":
+                                return "start() after a failed start(): %s (the instance must be used up)" % o
+                            if o.startswith("ok"):
+                                return "%s returned a result on an instance whose start() failed: %s" % (op, o[:60])
+                        return None
+                    sc.pred = pred_fs
+                    out.append(sc)
     for ps in (w.ps["ed"], w.ps["1024"], w.ps.get("toyed389")):
         if ps is None:
             continue
